@@ -43,6 +43,7 @@ func c05Scenario(p c05P, b Bounds) *Scenario {
 		Bounds: b,
 		New: func() *Instance {
 			h := &cliHarness{}
+			gates := NewGates()
 			body := func() {
 				lib, peer, pipe := NewPipe(PipeOpts{Name: "cli", CloseUnblocksRecv: p.Unblock})
 				h.pipe, h.peer = pipe, peer
@@ -51,6 +52,11 @@ func c05Scenario(p c05P, b Bounds) *Scenario {
 					OnStop:   func(_ *jrpc2.Client, err error) { vs.Event("hook", "OnStop", errStr(err)) },
 					OnCallback: func(ctx context.Context, r *jrpc2.Request) (any, error) {
 						vs.Event("hook", "OnCallback", "enter")
+						if r.Method() == "gated" {
+							// a handler that does not return promptly when its context ends: released only
+							// when nothing else can move (in particular while a correct Close is waiting for it)
+							gates.Wait("cb")
+						}
 						vs.Event("hook", "OnCallback", "exit")
 						return 1, nil
 					},
@@ -139,6 +145,18 @@ func c05Scenario(p c05P, b Bounds) *Scenario {
 						j.Go("callback", func() {
 							vs.Event("env", "callback")
 							peer.Send([]byte(`{"jsonrpc":"2.0","id":"cb1","method":"srvcall"}`))
+						})
+					case "gcallback":
+						j.Go("gcallback", func() {
+							vs.Event("env", "callback")
+							peer.Send([]byte(`{"jsonrpc":"2.0","id":"cb2","method":"gated"}`))
+						})
+						vs.GoNamed("opener", func() {
+							for i := 0; i < 3; i++ {
+								vs.AwaitQuiescence()
+							}
+							vs.Note("env", "gate-open")
+							gates.Open("cb")
 						})
 					}
 				}
@@ -380,7 +398,7 @@ func c05Scenarios(tier string) []*Scenario {
 			}
 		}
 	}
-	pairs := [][]string{{"reply", "cancel"}, {"reply", "close"}, {"cancel", "close"}, {"reply", "eof"}, {"reply", "deadline"}, {"close", "eof"},
+	pairs := [][]string{{"gcallback", "eof"}, {"gcallback", "close"}, {"gcallback", "recverr"}, {"gcallback", "malformed"}, {"reply", "cancel"}, {"reply", "close"}, {"cancel", "close"}, {"reply", "eof"}, {"reply", "deadline"}, {"close", "eof"},
 		{"reply", "recverr"}, {"cancel", "malformed"}, {"callback", "close"}, {"sendfault", "close"}, {"reply", "callback"}, {"deadline", "close"}}
 	for _, pr := range pairs {
 		if q {
